@@ -112,6 +112,18 @@ def report(prop, tier, seed, results, known, wall) -> int:
     violations = []        # (result, obligation dict)
     problems = []
     bounded_parts = []
+    # a clause may be declared to count for some of the harness's properties only
+    for r in results:
+        cp = getattr(REGISTRY.get(r['id']), 'clause_props', None) or {}
+        if cp:
+            def counts(name, r=r, cp=cp):
+                clause = name.split('.', 1)[1] if '.' in name else name
+                for c, ps in cp.items():
+                    if clause == c or clause.startswith(c + '.'):
+                        return prop in ps
+                return True
+            r['obligations'] = [o for o in r['obligations'] if counts(o['name'])]
+            r['by_clause'] = {k: v for k, v in r['by_clause'].items() if counts(k)}
     for r in results:
         for p in r['problems']:
             problems.append(f"{r['id']}: {p}")
@@ -222,7 +234,7 @@ def _jsonable(x):
 def write_evidence(prop, tier, seed, results, crashes, problems, n_ob, n_proved, n_known, n_viol, wall, bounded_parts, seen_known):
     import z3
     vc = [r for r in results if r['kind'] == 'vc']
-    all_proof = bool(vc) and not bounded_parts
+    all_proof = bool(vc) and not bounded_parts and n_known == 0 and n_proved == n_ob
     functions = []
     for r in results:
         for s in r['sources']:
@@ -277,7 +289,11 @@ def write_evidence(prop, tier, seed, results, crashes, problems, n_ob, n_proved,
         wall_s=round(wall, 2), violations=n_viol,
     )
     if not all_proof and 'explanation' not in coverage:
-        coverage['explanation'] = 'no deductive obligations were generated'
+        coverage['explanation'] = (f'{n_proved} of {n_ob} deductive obligations discharged; {n_known} lie inside the classes of '
+                                   f'genuine defects of the code recorded in /verif/known_findings*.json (printed as KNOWN-FINDING)')
+        coverage.setdefault('evaluations', n_ob)
+        coverage.setdefault('distinct_nontrivial', len(per_clause))
+        coverage.setdefault('rule', 'one evaluation = one obligation (path x clause); distinct = distinct named clauses')
     os.makedirs(os.path.join(VERIF, 'evidence'), exist_ok=True)
     with open(os.path.join(VERIF, 'evidence', f'{prop}.json'), 'w') as f:
         json.dump(evd, f, indent=1, default=str)
